@@ -73,6 +73,29 @@ def samplePlan (f : RowFacts) : Except Fault (List Step) := do
   pure ([Step.toRfi sc] ++ conv.flatten ++ [Step.startEnd 250 100] ++
         (if f.integerData then [Step.highLow (sc ++ rc.map (·.1))] else []) ++ [Step.density2d sc])
 
+/-- the library calls behind `samplePlan`, as `process_samples_table` spells them: (callee, arguments after the sample, guard).
+`Step.toRfi sc` = call 1; `channelSteps` = calls 2–4 (plus the bead function for MEF); `Step.startEnd 250 100` = call 5;
+`Step.highLow (sc ++ report)` for integer data = call 6; `Step.density2d sc` on logicle axes = call 7. -/
+def pipelineSpec : List (String × String × String) :=
+  [("transform.to_rfi", "sc_channels", ""),
+   ("transform.to_rfi", "fl_channel", "units.lower() == 'rfi'"),
+   ("transform.to_rfi", "fl_channel", "units.lower() == 'a.u.' or units.lower() == 'au'"),
+   ("transform.to_rfi", "fl_channel", "units.lower() == 'mef'"),
+   ("gate.start_end", "num_start=250, num_end=100", ""),
+   ("gate.high_low", "sc_channels + report_channels", "sample_gated.data_type == 'I'"),
+   ("gate.density2d", "channels=sc_channels, gate_fraction=sample_row['Gate Fraction'], xscale='logicle', yscale='logicle', full_output=True", "")]
+
+/-- the statistic written into each per-channel result column and the object it is computed on -/
+def statSpec : List (String × String × String) :=
+  [(" Mean", "mean", "samples[row_id], channel"), (" Median", "median", "samples[row_id], channel"), (" Mode", "mode", "samples[row_id], channel"),
+   (" Std", "std", "samples[row_id], channel"), (" CV", "cv", "samples[row_id], channel"), (" IQR", "iqr", "samples[row_id], channel"),
+   (" RCV", "rcv", "samples[row_id], channel"), (" Geom. Mean", "gmean", "sample_positive, channel"),
+   (" Geom. Std", "gstd", "sample_positive, channel"), (" Geom. CV", "gcv", "sample_positive, channel")]
+
+/-- geometric statistics use the positive events only as soon as one event is `<= 0` -/
+def positiveRuleSpec : List String :=
+  ["if np.any(samples[row_id][:, channel] <= 0)", "samples[row_id][samples[row_id][:, channel] > 0]", "samples[row_id]"]
+
 /-! ### batch isolation -/
 
 /-- outcome of one row: the library result, a documented fault caught by the row's handler, or an
